@@ -803,6 +803,17 @@ def analyse_under(prog: Program, fn: FuncInfo, facts: List[Tuple]) -> Tuple[List
                         verdict = "proved"
                     else:
                         rec["why"] = ("lower bound " if lo is not True else "") + ("upper bound" if hi is not True else "")
+                    if hi is not True:
+                        # is the index tested against the size of this very array on this path?  (a condition of the path mentions both an
+                        # atom of the index and an atom of the extent / the length of the array): then the test is meant to keep the index
+                        # inside the array, and it does not
+                        ia = set(atoms_in(c))
+                        ea = set(atoms_in(ext)) | {("len", e.root, ())}
+                        for cnd in f.conds:
+                            ca = set(atoms_in(cnd))
+                            if ca & ia and ca & ea:
+                                rec["tested_against_extent"] = True
+                                break
                 rec["verdicts"].add(verdict)
                 cur = _advance(cur, c)
     out = []
@@ -811,6 +822,37 @@ def analyse_under(prog: Program, fn: FuncInfo, facts: List[Tuple]) -> Tuple[List
         rec["verdict"] = "proved" if v == {"proved"} else "unproved"
         out.append(rec)
     return out, calls
+
+
+def rule_example_kernels(ctx: Ctx, prog: Program) -> None:
+    """The jitted kernels shipped with the examples (a custom consistency algorithm and its helpers) run without bounds checks like the engine.
+    Each is interpreted on its own (callees not inlined).  Two verdicts are definite: a shape index (loop indices, counters, lengths) that
+    is not provably inside its array, and a value-driven index that the code itself tests against the size of the array it addresses while
+    the test does not establish index < size (a guard that is one off).  Other value-driven sites are listed as undecided."""
+    ctx.rule("R-SCRATCH")
+    n = n_proved = 0
+    for m in prog.modules.values():
+        if ".examples." not in m.name:
+            continue
+        for fn in m.functions.values():
+            if not fn.njit:
+                continue
+            n += 1
+            ctx.fn(fn.fq)
+            recs, _ = analyse_under(prog, fn, [])
+            for rec in recs:
+                inst = f"{fn.module.split('.')[-1]}.{rec['function']}:{rec['expr']}#{rec['axis']}"
+                if rec["verdict"] == "proved":
+                    n_proved += 1
+                    ctx.ok("R-SCRATCH", inst)
+                elif rec.get("tested_against_extent"):
+                    ctx.violation("R-SCRATCH", fn.path, rec["function"], f"guard-one-off:{_norm(rec['expr'])}#{rec['axis']}", f"{fn.path}:{rec['line']}",
+                                  f"{rec['function']}: the index of {rec['expr']} ({rec['index']}) is tested against the size of the array it addresses "
+                                  f"({rec['extent']}) but the test does not establish index < size ({rec.get('why', 'unproved')}): the access one past the "
+                                  "end is not excluded. Compiled code performs no bounds check")
+                else:
+                    ctx.undecided_site("R-SCRATCH", inst, "value-driven or caller-dependent index of an example kernel: " + rec.get("why", "unproved"))
+    ctx.floor("R-SCRATCH:example-kernels", n, 3)
 
 
 CHAINS = [("propagators.lexicographic_leq_propagator", "compute_domains_lexicographic_leq")]
